@@ -320,6 +320,7 @@ def catalogue():
     c.append(("two_out", [["I", "R", 0.4, None, None], ["I", "S", 0.3, "nw", None]], [[["I", "S"], ["I", "I"], 0.3, None, None], [["I", "S"], ["I", "R"], 0.2, None, None]], "SIR"))
     c.append(("selfexcite", [], [[["A", "A"], ["A", "B"], 0.3, None, None]], "AB"))
     c.append(("zeroweights", [["I", "S", 0.7, None, "zero1"]], [[["I", "S"], ["I", "I"], 0.3, None, "zero01"]], "SI"))
+    c.append(("SIRS_int0", [[2, 0, 0.7, None, None], [0, 1, 0.2, None, None]], [[[2, 1], [2, 2], 0.3, None, None]], [1, 2, 0]))
     c.append(("defaultweight", [["I", "R", 0.7, None, None]], [[["I", "S"], ["I", "I"], 0.3, "weight", None]], "SIR"))
     return c
 
